@@ -687,6 +687,9 @@ class eval_abs(object):
             if not isinstance(a, ExprInt):
                 return ExprOp(e.op, *args)
 
+        if not e.op in self.deal_op:
+            return ExprOp(e.op, *args)
+
         args = [a.arg for a in args]
 
         types_tab = [type(a) for a  in args]
